@@ -172,6 +172,14 @@ where
     W: Write,
 {
     fn write(&mut self, buf: &[u8]) -> std::io::Result<usize> {
+        if self.max_pdu_length <= PDV_HEADER_SIZE {
+            // the PDV header alone takes up the whole PDU:
+            // no data can be sent under this maximum PDU length
+            return Err(std::io::Error::new(
+                std::io::ErrorKind::InvalidInput,
+                "maximum PDU length too small to carry any data",
+            ));
+        }
         let total_len = (self.max_pdu_length + PDU_HEADER_SIZE) as usize;
         if self.buffer.len() == total_len && !buf.is_empty() {
             // buffer was filled exactly by previous writes:
@@ -524,6 +532,14 @@ pub mod non_blocking {
             cx: &mut Context<'_>,
             buf: &[u8],
         ) -> Poll<std::result::Result<usize, std::io::Error>> {
+            if self.max_pdu_length <= PDV_HEADER_SIZE {
+                // the PDV header alone takes up the whole PDU:
+                // no data can be sent under this maximum PDU length
+                return Poll::Ready(Err(std::io::Error::new(
+                    std::io::ErrorKind::InvalidInput,
+                    "maximum PDU length too small to carry any data",
+                )));
+            }
             // Each call to `poll_write` on the underlying stream may or may not
             // write the whole of `self.buffer`, therefore we need to keep track
             // of how much we've written, this is done in `self.state`
